@@ -54,10 +54,27 @@ def render_template(tpl):
     return ' '.join(repr(e) if isinstance(e, Pred) else render_item(e) for e in _merge_template(tpl))
 
 
+def octet_normal(items):
+    """Spelling-independent form of a term list: a fixed-width integer of a literal value is that constant (int_to_bytes(0, 2) ==
+    b'\\x00\\x00'); a one-octet integer field is the octet itself (int_to_bytes(x) == bytearray([x]) for the octet-valued
+    header fields - the assumption stated by the rules that use templates)."""
+    out = []
+    for it in items:
+        if isinstance(it, tuple) and it[0] == 'INT' and str(it[1]).isdigit() and str(it[2]).isdigit() and int(it[2]) < 256 ** max(int(it[1]), 1):
+            out.append(('C', int(it[2]).to_bytes(max(int(it[1]), 1), 'big')))
+        elif isinstance(it, tuple) and it[0] == 'INT' and str(it[1]) == '1':
+            out.append(('BYTE', it[2]))
+        elif isinstance(it, tuple) and it[0] == 'BYTE' and str(it[1]).isdigit() and int(it[1]) < 256:
+            out.append(('C', bytes([int(it[1])])))
+        else:
+            out.append(it)
+    return out
+
+
 def match(found_items, tpl):
     """Return (ok, index_of_first_difference, message)."""
-    f = merge_consts(found_items)
-    t = _merge_template(tpl)
+    f = merge_consts(octet_normal(found_items))
+    t = _merge_template(octet_normal(tpl))
     n = max(len(f), len(t))
     for i in range(n):
         if i >= len(f):
